@@ -1,5 +1,5 @@
 //@unit mh
-//@serves C10 C16
+//@serves C10 C16 C04 C05 C06
 use vstd::prelude::*;
 verus! {
 // std specifications not in vstd (A-std)
@@ -235,7 +235,7 @@ pub open spec fn accepts_sample(st: Map<u64, ExtendedHeader>, input: Seq<u8>, ou
 
 impl ShwapMultihasher {
 //@fn impl<S> Multihasher<MAX_MH_SIZE> for ShwapMultihasher<S> :: hash
-//@props C10 C16
+//@props C10 C16 C04 C05 C06
     async fn hash(&self, multihash_code: u64, input: &[u8]) -> (r: Result<Multihash, MultihasherError>)
         ensures
             r.is_ok() ==> {
